@@ -123,6 +123,12 @@ def apply_fn_sections(s, fnsec, item_lo, item_hi, log, copies, skip=frozenset())
     # process sections in an order that keeps earlier anchors valid: we recompute spans each time
     subs = fnsec.subs
     if name in skip:
+        m0 = code_mask(s)
+        st0, ls0, bo0, bc0 = fn_span(s, m0, name, item_lo, item_hi())
+        if bo0 == bc0:
+            # a declaration without body (trait method of the same name): nothing to isolate
+            skip = frozenset(skip) - {name}
+    if name in skip:
         # the function left the verifiable subset: keep its contract (assumed for callers), drop all proof text
         subs = [x for x in fnsec.subs if x.kind == 'spec']
         ext = Section('attr', '', fnsec.lineno, fnsec.src)
@@ -424,7 +430,19 @@ def inject(s, vc_files, skip=frozenset()):
                     lo, hi = item_lo, item_hi()
                     seg, n = re.subn(rx, rep, s[lo:hi], flags=re.S)
                     if n != cnt:
-                        raise Lost('%s:%d rewrite matched %d != %d: %s' % (os.path.basename(path), sub.lineno, n, cnt, rx))
+                        # the normalised construct occurs more or less often than on the tree the contracts were written
+                        # for: the functions of this item that follow are isolated (contract assumed), their properties
+                        # are UNDECIDED, everything else is still decided
+                        reason = '%s:%d rewrite matched %d != %d: %s' % (os.path.basename(path), sub.lineno, n, cnt, rx)
+                        later = False
+                        for sub2 in top.subs:
+                            if sub2 is sub:
+                                later = True
+                            elif later and sub2.kind == 'fn':
+                                nm = sub2.arg.split()[0]
+                                info['lost_fns'][nm] = {'reason': reason, 'props': fn_props(sub2), 'missing': False}
+                                skip = frozenset(skip) | {nm}
+                        continue
                     s = s[:lo] + seg + s[hi:]
                     info['rewrites'].append(('rewrite', rx, n))
     for top in deferred:
